@@ -23,7 +23,7 @@ def main(tier):
         ctrace = os.path.join(wd, "conc.ndjson")
         racelog = os.path.join(wd, "race-c03")
         vlib.run_harness(["c03conc", "-seed", str(run.seed), "-rounds", "120" if run.thorough else "25", "-out", ctrace, "-cases", os.path.join(wd, "cases.ndjson")],
-                         timeout=3400, race=True, env={"GORACE": "halt_on_error=0 log_path=%s" % racelog}, ok_codes=(0, 66))
+                         timeout=3400, race=True, env={"GORACE": "halt_on_error=0 history_size=5 log_path=%s" % racelog}, ok_codes=(0, 66))
         clines = vlib.read_ndjson(ctrace)
         racetext = "".join(open(os.path.join(wd, f), errors="replace").read() for f in sorted(os.listdir(wd)) if f.startswith("race-c03."))
         races = parse_races(racetext)
